@@ -14,7 +14,7 @@ CHECKS = {
 
 X2T = "explicit-state model checking of the real code: BFS over event histories (schedule, cancel, task outcomes, clock advances, reloads) on the real PipelineRunner under a controlled scheduler and virtual clock, canonical-state deduplication with merge audit, per-transition log monitors"
 for pid, text, ref in [
-  ("C01", "Every event history up to the depth bound, for every configuration of the grid (concurrency x queue_limit x strategy x delay, plus reload of the limit), is executed on the real runner; an interval monitor checks the running count at every start, that every task interval lies inside the job's reported span, and the number of task-runner instances executing at once.", "3/C01"),
+  ("C01", "Every event history up to the depth bound, for every configuration of the grid (concurrency x queue_limit x strategy x delay, plus reload of the limit), is executed on the real runner; an interval monitor checks the running count at every start, that every task interval lies inside the job's reported span, and the number of task-runner instances executing at once. Bounds are deepened beyond the prescribed ones while a unit has CPU allowance left (reported per unit). One unit drives the real binary through every history of three reloads of the limit (definition files + SIGUSR1) and counts running jobs through the API.", "3/C01"),
   ("C03", "From every reachable state of every configuration (incl. reload alphabets) all tasks are completed and all timers fired; a job still waiting afterwards, or an eligible job not started at a quiescent state, is a violation.", "3/C03"),
   ("C05", "At every reachable state of every configuration a schedule request is evaluated and compared with a reference decision table written from the statement; waiting-count invariants are checked in every state.", "3/C05"),
   ("C06", "Every history with up to the depth bound of waiting jobs, cancels, failures and graph errors is executed; at every start no earlier-accepted job of the pipeline may still wait.", "3/C06"),
@@ -45,7 +45,7 @@ CHECKS["C10"] = dict(engine="RMC", category="model_checking", technique=X2T+"; r
 CHECKS["C12"] = dict(engine="RMC", category="model_checking", technique=X2T+"; retention oracle and log-directory comparison at every save event; real FileOutputStore",
   text="Histories of schedule / outcome / cancel / clock advance / pipeline removal / save events over two pipelines for retention_count {0,1,2} x retention_period {0,1h}, also starting from jobs loaded from an earlier run; after every save a reference retention model and the agreement of API, store and log directories (hashes of kept logs) are checked.", design="3/C12", note=RMC_NOTE)
 CHECKS["C14"] = dict(engine="HTTPX", category="model_checking", technique="exhaustive enumeration of a finite input product (routes walked from the router x methods x credential classes x transports x profiling x request history) against the real handler, state-unchanged oracle",
-  text="Every route and method registered in the real chi router (walked, so new routes are included) is requested with 14 classes of invalid credentials over header, cookie and both, with profiling on and off, on a fresh server and after a legitimate request via header or cookie: status must be 401, the body must reveal nothing, and the state of a live runner with a running job must be unchanged; unregistered method/slash variants must neither succeed nor act; a valid token is the vacuity control.", design="3/C14",
+  text="Every route and method registered in the real chi router (walked, so new routes are included) is requested with 14 classes of invalid credentials over header, cookie and both, with profiling on and off, on a fresh server and after a legitimate request via header or cookie: status must be 401, the body must reveal nothing, and the state of a live runner with a running job must be unchanged; unregistered method/slash variants must neither succeed nor act; a valid token is the vacuity control. A race-build unit serves requests with and without a valid token at the same time (4 credential classes x 2 transports against 3 legitimate clients): every unauthorized request is answered 401, the job count equals the accepted legitimate requests, and the race detector reports state shared between requests.", design="3/C14",
   note="Exhaustive over the stated finite product; served in-process through the http.Handler; JWT library clock not controlled (expiry classes use +-1h).")
 CHECKS["C17"] = dict(engine="DEFX", category="model_checking", technique="bounded exhaustive input enumeration: validation grid rendered to YAML and loaded under every map iteration order, file-set layouts, and all ordered pairs of per-kind value grids for every struct field discovered by reflection, against a reference validator / reference equality",
   text="1024 definitions (concurrency x queue_limit x start_delay x strategy x depends_on) are rendered to YAML and loaded under every permutation of map iteration order: load fails iff the reference validator says invalid, otherwise the result equals what was written (default concurrency 1); file layouts and duplicate names; Equals is compared with reference equality for every field (by reflection; unknown kinds abort) over all ordered pairs of a value grid. Additional free-running units rewrite the definition file of the real binary with every single-field edit of the same grids and check that the reload (SIGUSR1) classifies it exactly as changed / unchanged / invalid.", design="3/C17",
@@ -55,7 +55,7 @@ PROCX_NOTE = "Real processes: the kernel / Go runtime schedule is not owned by t
 CHECKS["C18"] = dict(engine="PROCX", category="exploration", technique="exhaustive enumeration of an input grammar (level subsets x value classes, variable maps, job pairs) executed on the real TaskRunner with real processes; expected bytes computed by a reference precedence model; the OS schedule is not controlled",
   text="Every assignment of a variable to the subsets of {process, pipeline, task} x ten value classes, observed both as the interpreter expands it and as a child process receives it, in two concurrent jobs with different values and in tasks with / without task-level env; template rendering per job; the reserved variable is refused.", design="3/C18", note=PROCX_NOTE)
 CHECKS["C19"] = dict(engine="PROCX", category="exploration", technique="exhaustive enumeration of an output grammar (stream x size x newline x producer, multi-command tasks, task names, concurrent job pairs) on real processes with the real FileOutputStore and the real /job/logs handler; byte-exact oracle; the OS schedule is not controlled",
-  text="Every output shape of the grammar is produced by builtins and by exec'd commands in jobs that each run twice concurrently with identical task names; the store reader and the log API must return exactly the generated bytes per job, task and stream; an unknown task is refused.", design="3/C19", note=PROCX_NOTE)
+  text="Every output shape of the grammar is produced by builtins and by exec'd commands in jobs that each run twice concurrently with identical task names; the store reader and the log API must return exactly the generated bytes per job, task and stream; an unknown task is refused, also when the requested name is a decoration (path elements, case, blanks, extensions, another job's directory) of a task the job has. A race-build unit starts 12 jobs x 4 parallel tasks at the same moment on one file store, four times, with the same byte-exact oracle.", design="3/C19", note=PROCX_NOTE)
 CHECKS["C20"] = dict(engine="PROCX", category="exploration", technique="exhaustive enumeration of a process-tree grammar x cancel instants x cancel modes on real processes; /proc scan for a per-run environment marker after the job is reported finished; the OS schedule is not controlled",
   text="For every process-tree shape of the grammar (interpreter-level forms x child shell scripts incl. background jobs, pipelines, subshells, interrupt-ignoring children, nesting, helpers daemonised by an earlier command) the job is cancelled (CancelJob at two instants, forced Shutdown); once it is reported finished no process carrying its marker may be alive after kill timeout + allowance; a bystander job's process must survive.", design="3/C20", note=PROCX_NOTE)
 
@@ -73,8 +73,8 @@ m = {
    "add_only": True,
  },
  "engines": [
-   {"name": "APPX", "path": "engine/appx.go", "serves_properties": ["C11", "C16", "C17"], "kind_free_text": "the real prunner binary driven over exhaustive reload histories / single-field edits (SIGUSR1, log-line oracle) and shutdown signals; schedule not owned"},
-   {"name": "PROCX", "path": "engine/procx.go", "serves_properties": ["C18", "C19", "C20"], "kind_free_text": "grammar enumeration on the real TaskRunner with real processes (schedule not owned)"},
+   {"name": "APPX", "path": "engine/appx.go", "serves_properties": ["C01", "C11", "C14", "C16", "C17", "C18"], "kind_free_text": "the real prunner binary driven over exhaustive reload histories (tasks, limits, environment) / single-field edits (SIGUSR1, log-line oracle), its HTTP surface and shutdown signals; schedule not owned"},
+   {"name": "PROCX", "path": "engine/procx.go", "serves_properties": ["C02", "C08", "C13", "C14", "C18", "C19", "C20"], "kind_free_text": "grammar enumeration on the real TaskRunner with real processes (schedule not owned); free-running race-build units (task runner, HTTP handlers, restart path, concurrent writers)"},
    {"name": "HTTPX", "path": "engine/httpx.go", "serves_properties": ["C14"], "kind_free_text": "finite-product enumeration against the real HTTP handler"},
    {"name": "DEFX", "path": "engine/defx.go", "serves_properties": ["C17"], "kind_free_text": "bounded exhaustive inputs for loader / validator / Equals"},
    {"name": "CRASHFS", "path": "engine/crashfs.go", "serves_properties": ["C09"], "kind_free_text": "crash-point / fault enumeration over shim/vos"},
@@ -83,7 +83,7 @@ m = {
  ],
  "checks": [],
  "not_applicable": [],
- "notes": "bin/check <ID> rebuilds the instrumented harness (and the plain prunner binary for the APPX units) from /repo's working tree on every call. Exit 3 = infrastructure failure (never a verdict). known_findings.json lists one recorded (unrepaired) genuine defect for C01 and the repaired ones; seeded/ holds 80 confirmed property-breaking changes with the check results; regress/ replays the repaired defects as plain tests; DESIGN.md section 8 describes what was built.",
+ "notes": "bin/check <ID> rebuilds the instrumented harness (and the plain prunner binary for the APPX units) from /repo's working tree on every call. Exit 3 = infrastructure failure (never a verdict). known_findings.json lists one recorded (unrepaired) genuine defect for C01 and the repaired ones; seeded/ holds 240 confirmed property-breaking changes (six rounds) with the check results; regress/ replays the repaired defects as plain tests; DESIGN.md section 8 describes what was built.",
 }
 for p in props:
     pid = p["id"]
